@@ -26,7 +26,7 @@ def cases(draw):
     role = draw(st.sampled_from(["client", "server"]))
     state = draw(st.sampled_from(["open", "open", "open", "closing", "wait-cea" if role == "client" else "server-closed"]))
     kind = draw(st.sampled_from(["mutation", "mutation", "misaddressed", "unknown-enumerator", "wrong-width", "short-host-ip",
-                                 "good+length0", "good+short-length", "good+garbage-header"]))
+                                 "good+length0", "good+short-length", "good+garbage-header", "binary-user-name"]))
     mut = draw(c03.cases) if kind == "mutation" else None
     return {"kind": "live", "role": role, "state": state, "input": kind, "mut": mut, "cuts": draw(st.lists(st.integers(1, 600), max_size=3)),
             "hbh": draw(st.integers(1, 2**32 - 1))}
@@ -66,6 +66,8 @@ def build_input(case):
         ln = {"good+length0": 0, "good+short-length": 1 + case["hbh"] % 19, "good+garbage-header": 0xFFFFFF}[k]
         bad = bytes([1]) + ln.to_bytes(3, "big") + bytes([0x80, 0, 1, 0x3c]) + bytes(12)
         return good + bad, False
+    if k == "binary-user-name":
+        return app_request(case["hbh"], 7, dest_realm=LOCAL["realm"], user=b"\xff\xfe\x00\x80name"), True
     if k == "short-host-ip":
         # CER-like message whose Host-IP-Address has family code only
         avps = [rc.enc_avp(264, 0x40, None, b"peer.remote.example"), rc.enc_avp(296, 0x40, None, b"remote.example"),
